@@ -547,8 +547,14 @@ gotheaders(struct http_cookie * H, uint8_t * buf, size_t buflen)
 		/* The next response starts at the beginning of the buffer. */
 		H->hepos = 0;
 
-		/* Go back to reading headers. */
-		return (callback_read_header(H, 0));
+		/*
+		 * Go back to reading headers -- via the event loop, so that
+		 * a flood of 1xx responses cannot make us recurse once per
+		 * response and overflow the stack.
+		 */
+		if (netbuf_read_wait(H->R, 0, callback_read_header, H))
+			return (die(H));
+		return (0);
 	}
 
 	/* If we don't expect any body, we can perform the callback now. */
@@ -681,8 +687,15 @@ callback_chunkedeol(void * cookie, int status)
 	/* Consume the EOL. */
 	netbuf_read_consume(H->R, 2);
 
-	/* Get the next chunk. */
-	return (callback_chunkedheader(H, 0));
+	/*
+	 * Get the next chunk.  We go via the event loop (a zero-length wait
+	 * completes immediately) rather than calling callback_chunkedheader
+	 * directly, so that a server which sends many small chunks at once
+	 * cannot make us recurse once per chunk and overflow the stack.
+	 */
+	if (netbuf_read_wait(H->R, 0, callback_chunkedheader, H))
+		return (die(H));
+	return (0);
 }
 
 /* Read and parse a chunked header line. */
